@@ -794,6 +794,14 @@ fn plain_specs(tier: Tier) -> Vec<Spec> {
     for raw in [&b""[..], b"hello", b"\x1b[2J", b"\x1b[1;2H\x1b[0m", b"\x1b]0;t\x07"] {
         v.push(Spec::Raw(raw.to_vec()));
     }
+    // long payloads (buffers inside the encoder are small)
+    for n in [31usize, 32, 33, 63, 64, 65, 255, 256, 257, 4095, 4096, 4097, 70_000] {
+        v.push(Spec::Title("t".repeat(n)));
+        v.push(Spec::Title("\u{e9}".repeat(n)));
+        v.push(Spec::Termcap(vec!["n".repeat(n)]));
+        v.push(Spec::Raw((0..n).map(|i| b'a' + (i % 26) as u8).collect()));
+    }
+    v.push(Spec::Termcap((0..100).map(|i| format!("cap{i}")).collect()));
     v
 }
 
@@ -1016,6 +1024,45 @@ fn sweep<G: Fn(u64) -> Spec + Sync>(
 }
 
 // ---------------------------------------------------------------------------------------
+// (6) value sweeps: one numeric parameter takes EVERY value of a range (formatting of numbers, tables
+// indexed by value and per-character decisions are invisible to a boundary lattice)
+// ---------------------------------------------------------------------------------------
+
+const VALUE_TOP: u64 = 70_000;
+const VALUE_SHAPES: u64 = 14;
+
+/// case `i` of the value sweep: shape `i / (VALUE_TOP + 1)`, value `i % (VALUE_TOP + 1)`
+fn value_spec(i: u64) -> Spec {
+    let v = i % (VALUE_TOP + 1);
+    let s = v as i32;
+    match i / (VALUE_TOP + 1) {
+        0 => Spec::CursorTo { row: v, col: 1 },
+        1 => Spec::CursorTo { row: 1, col: v },
+        2 => Spec::EraseChars(v),
+        3 => Spec::KeyboardLevel(v),
+        4 => Spec::ScrollRegion { start: v, end: v + 1 },
+        5 => Spec::ScrollRegion { start: 1, end: v },
+        6 => Spec::CursorMove { row: s, col: 0 },
+        7 => Spec::CursorMove { row: -s, col: 0 },
+        8 => Spec::CursorMove { row: 0, col: s },
+        9 => Spec::CursorMove { row: 0, col: -s },
+        10 => Spec::Scroll(s),
+        11 => Spec::Scroll(-s),
+        12 => Spec::Color { name: (v % 256) as i64, color: Some([(v % 251) as u8, (v / 256 % 256) as u8, (v % 256) as u8]) },
+        _ => Spec::Color { name: (v % 256) as i64, color: None },
+    }
+}
+
+/// every scalar value from U+0020 on except DEL and the C1 controls
+fn char_spec(i: u64) -> Option<Spec> {
+    let c = 0x20 + i as u32;
+    if (0x7f..0xa0).contains(&c) || char::from_u32(c).is_none() {
+        return None;
+    }
+    Some(Spec::Char(c))
+}
+
+// ---------------------------------------------------------------------------------------
 // (5) colour conversion does not depend on the colours converted before
 // ---------------------------------------------------------------------------------------
 
@@ -1214,6 +1261,15 @@ pub fn run(ctx: &Ctx) -> Result<Report, String> {
     // 5. colours with an alpha channel converted one after another by one encoder
     let history_evals = sweep_colour_history(&viol);
 
+    // 6. value sweeps under two configurations (kitty keyboard off / on)
+    let value_cfgs = [Cfg { depth: 0, kitty: false, glyphs: false }, Cfg { depth: 1, kitty: true, glyphs: true }];
+    let value_total = VALUE_SHAPES * (VALUE_TOP + 1) * value_cfgs.len() as u64;
+    sweep(ctx, value_total, 1 << 40, &value_cfgs, value_spec, &viol, &samples, &c);
+    let char_top: u64 = 0x110000 - 0x20;
+    let one_cfg = [Cfg { depth: 0, kitty: false, glyphs: false }];
+    sweep(ctx, char_top, 1 << 41, &one_cfg, |i| char_spec(i).unwrap_or(Spec::Char(0x20)), &viol, &samples, &c);
+    capped |= ctx.over_cap();
+
     let evals = c.evals.load(Ordering::Relaxed) + pair_evals.load(Ordering::Relaxed) + history_evals;
     let mut r = Report::new("exploration");
     r.set("evaluations", evals)
@@ -1235,6 +1291,7 @@ pub fn run(ctx: &Ctx) -> Result<Report, String> {
         .set("space_ordered_pairs", (n * n) as u64)
         .set("pair_streams", pair_evals.load(Ordering::Relaxed))
         .set("colour_history_streams", history_evals)
+        .set("value_sweep", json!({"shapes": VALUE_SHAPES, "values_per_shape": VALUE_TOP + 1, "configurations": 2, "characters": "every scalar value from U+0020 except DEL and C1"}))
         .set("representatives", n)
         .set("empty_outputs", c.empty_outputs.load(Ordering::Relaxed))
         .set("bytes_parsed", c.bytes.load(Ordering::Relaxed))
